@@ -42,6 +42,11 @@ CHECKS.update({
         "note": M1NOTE + " Dense-time reading as stated in spec/UPTimeSem.tla; plans of <= 3 steps.",
         "technique": "recorded validator verdicts judged by the TLA+ temporal semantics (UPTimeSem) evaluated by TLC",
     },
+    "C31": {
+        "text": "Generated finite-state problems with interpreted functions (finite tables) in conditions/effects, or with an oversubscription metric, are solved through interpreted_functions_planning[bfs] / oversubscription[bfs] (bfs = the exact breadth-first planner the property assumes, registered by the harness). TLC judges every returned plan with UPSeqSem!SeqVerdict on the original problem and explores the problem's whole reachable state space: a reported SOLVED_OPTIMALLY must have maximal gain among reachable goal states, and an UNSOLVABLE status / missing plan is only accepted when no reachable goal state exists.",
+        "note": M1NOTE + " Assumes harness/bfsplanner.py is a correct underlying planner; state spaces are finite (Boolean/object fluents, bounded ints). The adversarial inner-status sequences of DESIGN.md (scripted engine) are not built.",
+        "technique": "meta-engine results judged by the TLA+ plan semantics and by exhaustive TLC exploration of the problem's reachable states",
+    },
     "C35": {
         "text": "Trace validation over UPSeqSem: generated contingent problems (hidden fluents under oneof/or/unknown constraints incl. negated literals, explicit values, per-fluent and per-type defaults, sensing and ordinary actions) x random seeds; every run of the real SimulatedExecutionEnvironment is validated as a behaviour Pick;Do*: the picked initial state satisfies every constraint and gives every non-hidden fluent its declared value, each applied action is a Step of the sequential semantics (the environment raises iff Step says inapplicable), and returned observations equal the current values.",
         "note": M1NOTE + " The state is observed through a sensing action observing every ground fluent.",
